@@ -224,6 +224,8 @@ pub(crate) async fn handle_run<'a>(
     }
     let mut tracking_run = get_next_tracking_run(cfg, &tracking_table)?;
     let run_path = setup_run_path(cfg, tracking_run.id, work_path)?;
+    #[cfg(pnordahl_monorail_verif)]
+    crate::verif::point("run_after_slot_setup");
     let commands = get_all_commands(cfg, &input.commands, &input.sequences)?;
     let mut argmap = ArgMap::new();
     let mut checkpointed = false;
@@ -311,11 +313,17 @@ pub(crate) async fn handle_run<'a>(
     )
     .await?;
 
+    #[cfg(pnordahl_monorail_verif)]
+    crate::verif::point("run_before_store_result");
     // Store the run output record
     store_run_output(&run_output, &run_path)?;
 
+    #[cfg(pnordahl_monorail_verif)]
+    crate::verif::point("run_after_store_result");
     // Update the run counter
     tracking_run.save()?;
+    #[cfg(pnordahl_monorail_verif)]
+    crate::verif::point("run_after_save");
     Ok(run_output)
 }
 
@@ -972,11 +980,15 @@ async fn process_plan(
 
             for client in compressor_clients {
                 client.0.shutdown().await?;
+                #[cfg(pnordahl_monorail_verif)]
+                crate::verif::point("compressor_between_shutdowns");
                 client.1.shutdown().await?;
             }
             // Unwrap for thread dyn Any panic contents, which isn't easily mapped to a MonorailError
             // because it doesn't impl Error; however, the internals of this handle do, so they
             // will get propagated.
+            #[cfg(pnordahl_monorail_verif)]
+            crate::verif::point("compressor_before_join");
             compressor_handle.join().unwrap()?;
         }
         results.push(crr);
